@@ -331,32 +331,32 @@ Definition Good (st : state) : Prop := Inv (values st) /\ Bounded (values st) /\
 (** * Discipline of a history.
     (a) [mask_ok]: the documented precondition of a per-individual revert, in its weakest form: every
         node of the forked sub-graph that is cached on both sides carries the individual axis.
-    (b) [fork_ok] (only for the code as it is, [fx = false]): no assignment is made with auto-fork
-        switched off while an earlier fork is still pending — finding F1. *)
+    (b) [unforked_ok], demanded only when [chk = true] (needed for the code as it is, [fx = false]): no
+        assignment is made with auto-fork switched off while an earlier fork is still pending — finding F1. *)
 Definition mask_ok (st : state) : Prop :=
   match fork st with
   | None => True
   | Some fk => forall c o, In (c, Some o) fk -> values st c <> None -> ind_axis g c = true
   end.
 
-Definition unforked_ok (st : state) : Prop :=
-  fx = false -> mode st = None -> fork st = None.
+Definition unforked_ok (chk : bool) (st : state) : Prop :=
+  chk = true -> mode st = None -> fork st = None.
 
-Definition op_ok (s : store) (o : op) : Prop :=
+Definition op_ok (chk : bool) (s : store) (o : op) : Prop :=
   match o with
   | RevertMask k _ => match nth_error s k with Some st => mask_ok st | None => True end
   | Set_ k i _ | Put k i _ _ _ =>
       match nth_error s k with
-      | Some st => i < gn g -> settable g i = true -> unforked_ok st
+      | Some st => i < gn g -> settable g i = true -> unforked_ok chk st
       | None => True
       end
   | _ => True
   end.
 
-Fixpoint Disciplined (s : store) (ops : list op) : Prop :=
+Fixpoint Disciplined (chk : bool) (s : store) (ops : list op) : Prop :=
   match ops with
   | [] => True
-  | o :: r => op_ok s o /\ Disciplined (fst (step s o)) r
+  | o :: r => op_ok chk s o /\ Disciplined chk (fst (step s o)) r
   end.
 
 (** node functions of per-individual nodes commute with the row-wise selection [mix]:
